@@ -1,7 +1,7 @@
 from mutlib import mutant
 X='homescript/runtime/execute.go'
 C='homescript/runtime/core.go'
-mutant('c02-div-zero','C02','runInstruction#div',X,'''			if rInt.Inner == 0 {
+mutant('c02-div-zero','C02','runInstruction && #div',X,'''			if rInt.Inner == 0 {
 				return self.fatalErr(
 					"Division by zero error: this is operation is illegal",
 					value.Vm_ValueErrorKind,
@@ -9,25 +9,25 @@ mutant('c02-div-zero','C02','runInstruction#div',X,'''			if rInt.Inner == 0 {
 				)
 			}
 			self.push(value.NewValueInt(lInt.Inner / rInt.Inner))''','''			self.push(value.NewValueInt(lInt.Inner / rInt.Inner))''')
-mutant('c02-drop-twice','C02','runInstruction#',X,'''	case compiler.Opcode_Drop:
+mutant('c02-drop-twice','C02','runInstruction',X,'''	case compiler.Opcode_Drop:
 		self.pop()''','''	case compiler.Opcode_Drop:
 		self.pop()
 		self.pop()''')
-mutant('c01-sub-swapped','C01','runInstruction#post:binary',X,'self.push(value.NewValueInt(lInt.Inner - rInt.Inner))','self.push(value.NewValueInt(rInt.Inner - lInt.Inner))')
-mutant('c01-lt-le','C01','runInstruction#post:binary',X,'self.push(value.NewValueBool(lFloat.Inner < rFloat.Inner))','self.push(value.NewValueBool(lFloat.Inner <= rFloat.Inner))')
-mutant('c01-jump-inverted','C01','runInstruction#post:jump-if',X,'		if !v.(value.ValueBool).Inner {','		if v.(value.ValueBool).Inner {')
-mutant('c01-xor-bool','C01','runInstruction#post:binary',X,'self.push(value.NewValueBool(lBool.Inner != rBool.Inner))','self.push(value.NewValueBool(lBool.Inner == rBool.Inner))')
-mutant('c01-getvar-sign','C01','runInstruction#',C,'	return int(core.MemoryPointer - rel)','	return int(core.MemoryPointer + rel)')
-mutant('c01-shr-shl','C01','runInstruction#post:binary',X,'self.push(value.NewValueInt(lInt.Inner >> rInt.Inner))','self.push(value.NewValueInt(lInt.Inner << rInt.Inner))')
-mutant('c01-call-ip','C01','runInstruction#post:call',X,'''		i := instruction.(compiler.OneStringInstruction)
+mutant('c01-sub-swapped','C01','runInstruction && #post:binary',X,'self.push(value.NewValueInt(lInt.Inner - rInt.Inner))','self.push(value.NewValueInt(rInt.Inner - lInt.Inner))')
+mutant('c01-lt-le','C01','runInstruction && #post:binary',X,'self.push(value.NewValueBool(lFloat.Inner < rFloat.Inner))','self.push(value.NewValueBool(lFloat.Inner <= rFloat.Inner))')
+mutant('c01-jump-inverted','C01','runInstruction && #post:jump-if',X,'		if !v.(value.ValueBool).Inner {','		if v.(value.ValueBool).Inner {')
+mutant('c01-xor-bool','C01','runInstruction && #post:binary',X,'self.push(value.NewValueBool(lBool.Inner != rBool.Inner))','self.push(value.NewValueBool(lBool.Inner == rBool.Inner))')
+mutant('c01-getvar-sign','C01','runInstruction',C,'	return int(core.MemoryPointer - rel)','	return int(core.MemoryPointer + rel)')
+mutant('c01-shr-shl','C01','runInstruction && #post:binary',X,'self.push(value.NewValueInt(lInt.Inner >> rInt.Inner))','self.push(value.NewValueInt(lInt.Inner << rInt.Inner))')
+mutant('c01-call-ip','C01','runInstruction && #post:call',X,'''		i := instruction.(compiler.OneStringInstruction)
 		self.callFrame().InstructionPointer++
 		self.pushCallStack(i.Value)''','''		i := instruction.(compiler.OneStringInstruction)
 		self.pushCallStack(i.Value)
 		self.callFrame().InstructionPointer++''')
 mutant('c09-stack-limit','C09','Run#inv-init:loop2.quantum-within-limits',C,'		if len(self.Stack) > int(self.Limits.StackMaxSize) {','		if len(self.Stack) > 2*int(self.Limits.StackMaxSize) {')
 mutant('c09-callstack-limit','C09','Run#inv-init:loop2.quantum-within-limits',C,'		if len(self.CallStack) > int(self.Limits.CallStackMaxSize) {','		if len(self.CallStack) > int(self.Limits.CallStackMaxSize)+1 {')
-mutant('c09-oom','C09','runInstruction#post:out-of-memory',X,'		if int(self.MemoryPointer) >= int(self.Limits.MaxMemorySize) {','		if int(self.MemoryPointer) > int(self.Limits.MaxMemorySize) {')
-mutant('c09-oom-kind','C09','runInstruction#post:out-of-memory-kind',X,'				value.Vm_OutOfMemoryErrorKind,','				value.Vm_StackOverFlowErrorKind,')
+mutant('c09-oom','C09','runInstruction && #post:out-of-memory',X,'		if int(self.MemoryPointer) >= int(self.Limits.MaxMemorySize) {','		if int(self.MemoryPointer) > int(self.Limits.MaxMemorySize) {')
+mutant('c09-oom-kind','C09','runInstruction && #post:out-of-memory-kind',X,'				value.Vm_OutOfMemoryErrorKind,','				value.Vm_StackOverFlowErrorKind,')
 mutant('c10-poll-outside','C10','Run#',C,'''outer:
 	for len(self.CallStack) > 0 {
 		// Check cancelation
@@ -55,8 +55,8 @@ mutant('c10-poll-ignored','C10','Run#',C,'''		if i := self.checkCancelation(); i
 mutant('c11-try-frame','C11','Run#',C,'		frameIndex:    uint(len(core.CallStack) - 1),','		frameIndex:    uint(len(core.CallStack)),')
 mutant('c11-poptry-one','C11','#',C,'''	core.ExceptionCatchLabels = core.ExceptionCatchLabels[:len(core.ExceptionCatchLabels)-1]
 	core.tryStates = core.tryStates[:len(core.tryStates)-1]''','''	core.ExceptionCatchLabels = core.ExceptionCatchLabels[:len(core.ExceptionCatchLabels)-1]''')
-mutant('c11-settry-ip','C11','runInstruction#post:try-push',X,'			InstructionPointer: uint(i.ValueInt),','			InstructionPointer: uint(i.ValueInt) + 1,')
-mutant('c02-unwrap-none','C02','runInstruction#post:unwrap-none',X,'''		if inner == nil {
+mutant('c11-settry-ip','C11','runInstruction && #post:try-push',X,'			InstructionPointer: uint(i.ValueInt),','			InstructionPointer: uint(i.ValueInt) + 1,')
+mutant('c02-unwrap-none','C02','runInstruction && #post:unwrap-none',X,'''		if inner == nil {
 			span := self.parent.SourceMap(*self.callFrame())
 			return value.NewValueOptionUnwrapErr(span)
 		}
